@@ -234,6 +234,64 @@ def _run_part(a):
         return dict(part=str(idx), error="".join(traceback.format_exception(type(e), e, e.__traceback__))[-6000:])
 
 
+def _child(job, conn):
+    try:
+        conn.send(_run_part(job))
+    finally:
+        conn.close()
+
+
+def run_jobs(jobs, njobs, mod, ctx):
+    """each part in its own forked process: a part that dies (signal / os._exit inside repository C code) or hangs is
+    reported instead of blocking the run"""
+    mpctx = mp.get_context("fork")
+    timeout = float(os.environ.get("VERIF_PART_TIMEOUT", "900" if ctx.quick else "14400"))
+    names = {}
+    try:
+        plist = mod.parts(ctx)
+        names = {i: p.name for i, p in enumerate(plist)}
+    except Exception:
+        pass
+    names[-1] = "corpus"
+    pending = list(jobs)
+    running = []
+    results = []
+    while pending or running:
+        while pending and len(running) < max(1, njobs):
+            job = pending.pop(0)
+            rd, wr = mpctx.Pipe(duplex=False)
+            pr = mpctx.Process(target=_child, args=(job, wr))
+            pr.start()
+            wr.close()
+            running.append((pr, rd, job, time.time()))
+        still = []
+        for pr, rd, job, t0 in running:
+            name = names.get(job[2], str(job[2]))
+            if rd.poll():
+                try:
+                    results.append(rd.recv())
+                except EOFError:
+                    pr.join()
+                    results.append(dict(part=name, died=pr.exitcode))
+                pr.join()
+            elif not pr.is_alive():
+                pr.join()
+                if rd.poll():
+                    results.append(rd.recv())
+                else:
+                    results.append(dict(part=name, died=pr.exitcode))
+            elif time.time() - t0 > timeout:
+                pr.kill()
+                pr.join()
+                results.append(dict(part=name, error="part exceeded the harness watchdog of %.0fs (inconclusive)" % timeout))
+            else:
+                still.append((pr, rd, job, t0))
+        running = still
+        if running:
+            time.sleep(0.02)
+    return results
+
+
 def load_known():
     if not os.path.exists(KNOWN_FILE):
         return []
@@ -277,6 +335,8 @@ def main(argv=None):
         with open(args.replay) as f:
             body = json.load(f)
         case = body["case"] if isinstance(body, dict) and "case" in body else body
+        if isinstance(case, dict) and case.get("kind") == "part":
+            return main([prop, "--tier", case.get("tier", "quick"), "--seed", str(case.get("seed", 1)), "--only", case["part"]])
         try:
             mod.replay(ctx, case)
         except Violation as v:
@@ -296,13 +356,15 @@ def main(argv=None):
     jobs = [(modname, ctxd, i) for i in idxs]
     if corpus_files(prop) and not args.only:
         jobs.insert(0, (modname, ctxd, -1))
-    if args.jobs <= 1 or len(jobs) == 1:
-        results = [_run_part(j) for j in jobs]
-    else:
-        mpctx = mp.get_context("fork")
-        with mpctx.Pool(min(args.jobs, len(jobs)), maxtasksperchild=1) as pool:
-            results = list(pool.imap_unordered(_run_part, jobs, chunksize=1))
+    results = run_jobs(jobs, args.jobs, mod, ctx)
     results.sort(key=lambda d: str(d.get("part")))
+    died = [r for r in results if "died" in r]
+    for r in died:
+        # the worker was killed while running repository code on generated input (e.g. SIGSEGV/abort in the C extension)
+        r.update(evaluations=0, nontrivial=[], classes={}, samples=[], known_hits={}, exhaustive=None, notes=[], wall_s=0.0,
+                 violations=[("%s/process-died/%s" % (prop, r["part"]), "worker process of part %s died with exit code %s while running repository code "
+                               "(negative = signal); re-run with --only %s" % (r["part"], r["died"], r["part"]),
+                               dict(kind="part", part=r["part"], seed=args.seed, tier=args.tier))])
     errors = [r for r in results if "error" in r]
     for r in errors:
         sys.stderr.write("---- harness error in part %s ----\n%s\n" % (r["part"], r["error"]))
